@@ -1,30 +1,77 @@
+// C11 -- no text given to the descriptor-key parser makes the library panic (BOUNDED harnesses).
+//
+// `parse_key_origin` (src/descriptor/key.rs) slices its input at BYTE offsets (`s[1..]`, and its caller
+// `DescriptorPublicKey::from_str` slices the returned key part at `[0..2]`).  A `&str` slice panics when the offset is
+// not a character boundary, so the slices are safe only because the function first rejects every string with a byte
+// >= 128 (then every character is one byte long and every offset is a boundary).  The harnesses pose exactly that
+// obligation on the REAL function for EVERY valid UTF-8 string of the stated length: no panic / failed slice-boundary
+// check is reachable, and an accepted key part is pure ASCII (what the caller's `key_part[0..2]` relies on).  The
+// strings are symbolic bytes filtered by the real `core::str::from_utf8`, so multi-byte first characters (2-byte
+// U+0080..U+07FF, 3-byte U+0800..U+FFFF) are among the inputs.
+//
+// Two stubs, both PANICKING (so neither can hide a reachable path -- reaching one fails the harness):
+//  * `core::str::slice_error_fail`, the cold panic path of a failed `&str` slice (recursive, formats): a plain panic
+//    carrying the obligation tag;
+//  * `bip32::Fingerprint::from_hex`: with <= 3 bytes the origin fingerprint can never have its 8 characters, so the
+//    fingerprint / derivation-path parsing behind the length check is unreachable; the panicking stub lets CBMC cut that
+//    code (hex decoding, Vec growth, `u32::from_str`: > 15 min / > 8 GB otherwise) and PROVES it unreachable within the
+//    bound (tag keyparse.bound_does_not_reach_fingerprint_parser).
+
 fn stub_slice_error_fail(_s: &str, _begin: usize, _end: usize) -> ! {
     panic!("C11:keyparse.str_slice_on_char_boundary")
 }
 
-#[kani::proof]
-#[kani::unwind(6)]
-#[kani::stub(core::str::slice_error_fail, stub_slice_error_fail)]
-fn probe_utf8_only() {
-    let bytes: [u8; 2] = kani::any();
-    let len: usize = kani::any();
-    kani::assume(len <= 2);
-    if let Ok(s) = core::str::from_utf8(&bytes[..len]) {
-        kani::cover!(len >= 2 && bytes[0] >= 0xC2);
-        assert!(s.len() == len);
-    }
+fn stub_fp_from_hex(_s: &str) -> Result<bip32::Fingerprint, bitcoin::hex::HexToArrayError> {
+    panic!("C11:keyparse.bound_does_not_reach_fingerprint_parser")
 }
 
+// every valid UTF-8 string of exactly N bytes
+macro_rules! key_origin_harness {
+    ($name:ident, $n:expr, $unwind:expr) => {
+        #[kani::proof]
+        #[kani::unwind($unwind)]
+        #[kani::stub(core::str::slice_error_fail, stub_slice_error_fail)]
+        #[kani::stub(bitcoin::bip32::Fingerprint::from_hex, stub_fp_from_hex)]
+        fn $name() {
+            let bytes: [u8; $n] = kani::any();
+            if let Ok(s) = core::str::from_utf8(&bytes) {
+                kani::cover!(bytes[0] >= 0xC2);        // a multi-byte first character is among the inputs (N >= 2)
+                kani::cover!(bytes[0] == b'[');        // so is the origin branch
+                kani::cover!(bytes[0] == b'a');        // and a plain key part
+                let r = parse_key_origin(s);
+                if let Ok((key_part, _)) = &r {
+                    let kb = key_part.as_bytes();
+                    let mut i = 0;
+                    while i < $n {
+                        if i < kb.len() {
+                            assert!(kb[i] < 128, "C11:keyparse.accepted_key_part_is_ascii");
+                        }
+                        i += 1;
+                    }
+                }
+                core::mem::forget(r);
+            }
+        }
+    };
+}
+
+key_origin_harness!(parse_key_origin_no_panic_utf8_len2, 2, 4);
+key_origin_harness!(parse_key_origin_no_panic_utf8_len3, 3, 5);
+
+// lengths 0 and 1 (no multi-byte character possible; the empty string must be rejected, not sliced)
 #[kani::proof]
-#[kani::unwind(6)]
+#[kani::unwind(3)]
 #[kani::stub(core::str::slice_error_fail, stub_slice_error_fail)]
-fn probe_pko2() {
-    let bytes: [u8; 2] = kani::any();
+#[kani::stub(bitcoin::bip32::Fingerprint::from_hex, stub_fp_from_hex)]
+fn parse_key_origin_no_panic_utf8_len01() {
+    let bytes: [u8; 1] = kani::any();
     let len: usize = kani::any();
-    kani::assume(len <= 2);
+    kani::assume(len <= 1);
     if let Ok(s) = core::str::from_utf8(&bytes[..len]) {
-        kani::cover!(len >= 2 && bytes[0] >= 0xC2);
+        kani::cover!(len == 0);
+        kani::cover!(len == 1 && bytes[0] == b'[');
         let r = parse_key_origin(s);
+        assert!(len != 0 || r.is_err(), "C11:keyparse.empty_key_rejected");
         core::mem::forget(r);
     }
 }
